@@ -524,6 +524,22 @@ pub fn run(tier: &str) -> i32 {
     let mut rep = Report::new("C04", tier);
     let thorough = rep.thorough();
     let mut progs = space(thorough);
+    // declarations-only modules (no entry point at all): the bind groups are owed all the same (every 4th program)
+    {
+        let n0 = progs.len();
+        for i in 0..n0 {
+            if thorough || i % 4 == 2 {
+                if let Some(src) = without_entry_points(&progs[i].src) {
+                    if naga_check(&src).is_ok() {
+                        let mut q = progs[i].clone();
+                        q.key = format!("{}|no-entry-points", q.key);
+                        q.src = src;
+                        progs.push(q);
+                    }
+                }
+            }
+        }
+    }
     // resource variable types written through `alias` declarations (every 3rd program)
     {
         let n0 = progs.len();
